@@ -384,6 +384,8 @@ func exec(t []string) string {
 			return "bad-op" // authenticated requests are not generated by this command
 		}
 		return dgram(unhex(t[1]))
+	case t[0] == "ip.ident":
+		return identExec(t[1:])
 	case t[0] == "ip.seq" && len(t) == 3:
 		if t[2] != "nts=0" {
 			return "bad-op"
@@ -430,6 +432,12 @@ func ntsDecodes(payload []byte) bool {
 
 func gen(c *lib.Ctx) {
 	r := c.Rand
+	if identOnly() {
+		// property C06 runs only the client-identity histories of this harness
+		genIdent(c, c.Rand.Fork("ident"), c.Scale(150, 1500))
+		return
+	}
+	defer genIdent(c, c.Rand.Fork("ident"), c.Scale(40, 400))
 
 	// ---- (a) in-process ---------------------------------------------------------------
 	c.Comment("ValidateRequest: all 256 first bytes x source ports")
